@@ -30,7 +30,8 @@ COMPONENTS = {
 BUDGET = {'quick': 30000, 'thorough': 600000}
 PROBES = ['dot-leading-line', 'bare-lf', 'bare-cr', 'no-final-newline',
           'empty-message', 'trailing-bytes', 'preloaded-buffer',
-          'eod-split-across-reads', 'multi-part', 'lone-dot-line']
+          'eod-split-across-reads', 'multi-part', 'lone-dot-line',
+          'variants-concurrent']
 STATES_MEASURE = 'distinct (message class flags, segmenter) pairs'
 STEP_CAP = 300000
 ALPHA = [b'.', b'\r', b'\n', b'a', b'\r\n', b'\r\n', b'.\r\n', b'\xe9',
@@ -74,7 +75,7 @@ def generate(seed, tier='quick'):
     return {'property': ID, 'harness': 'wire', 'seed': seed,
             'sched_seed': rng.getrandbits(48),
             'parts': [p.hex() for p in parts], 'trailing': trailing.hex(),
-            'variants': variants}
+            'variants': variants, 'concurrent': rng.random() < 0.4}
 
 
 def execute(scn, debug=False):
@@ -89,6 +90,9 @@ def execute(scn, debug=False):
         want = msg if (msg == b'' or msg.endswith(b'\r\n')) else msg + b'\r\n'
         violations = []
         results = []
+        started = []
+        if scn.get('concurrent'):
+            world.probe('variants-concurrent')
         for i, (mode, param, latc, cap, preload) in enumerate(scn['variants']):
             a, b = net.socketpair(
                 world, 'v%d' % i,
@@ -97,14 +101,14 @@ def execute(scn, debug=False):
                 b_opts={'read_cap': cap})
             out = {}
 
-            def writer():
+            def writer(a=a):
                 io_w = IO(a, ('w', 0))
                 DataSender(*parts).send(io_w)
                 io_w.buffered_send(trailing)
                 io_w.flush_send()
                 a.shutdown(2)
 
-            def reader():
+            def reader(b=b, out=out, preload=preload):
                 io_r = IO(b, ('r', 0))
                 try:
                     if preload:
@@ -116,35 +120,18 @@ def execute(scn, debug=False):
                     out['exc'] = '%s: %s' % (type(e).__name__, e)
             gw = gevent.spawn(writer)
             gr = gevent.spawn(reader)
-            ok = world.wait(gr, 600.0)
-            world.wait(gw, 10.0)
-            if not ok:
-                violations.append({'clause': 'C05/hung', 'detail': {},
-                                   'msg': 'DataReader.recv did not return '
-                                          '(variant %s)' % mode})
-                break
-            out['unread'] = b.unread()
-            results.append(out)
-            if 'exc' in out:
-                violations.append({
-                    'clause': 'C05/content', 'detail': {'what': 'exception'},
-                    'msg': 'DataReader.recv raised %s (variant %s %s, '
-                           'preload=%s)' % (out['exc'], mode, param, preload)})
-                break
-            if out['data'] != want:
-                violations.append({
-                    'clause': 'C05/content', 'detail': {},
-                    'msg': 'received %r, expected %r (variant %s %s cap=%s '
-                           'preload=%s)' % (out['data'][:80], want[:80], mode,
-                                            param, cap, preload)})
-                break
-            if out['left'] + out['unread'] != trailing:
-                violations.append({
-                    'clause': 'C05/consumption', 'detail': {},
-                    'msg': 'after the end-of-data line %r is left for the '
-                           'command parser, expected %r (variant %s %s)' % (
-                               (out['left'] + out['unread'])[:60],
-                               trailing[:60], mode, param)})
+            started.append((gw, gr, b, out, mode, param, cap, preload))
+            if scn.get('concurrent') and i + 1 < len(scn['variants']):
+                # all variants at once, each on its own sockets and IO
+                # objects: they share nothing
+                continue
+            for gw, gr, b, out, mode, param, cap, preload in started:
+                if not _judge_variant(world, gw, gr, b, out, mode, param, cap,
+                                      preload, want, trailing, violations,
+                                      results):
+                    break
+            started = []
+            if violations:
                 break
         if msg == b'':
             world.probe('empty-message')
@@ -182,6 +169,41 @@ def execute(scn, debug=False):
         }
     finally:
         world.close()
+
+
+def _judge_variant(world, gw, gr, b, out, mode, param, cap, preload, want,
+                   trailing, violations, results):
+    ok = world.wait(gr, 600.0)
+    world.wait(gw, 10.0)
+    if not ok:
+        violations.append({'clause': 'C05/hung', 'detail': {},
+                           'msg': 'DataReader.recv did not return '
+                                  '(variant %s)' % mode})
+        return False
+    out['unread'] = b.unread()
+    results.append(out)
+    if 'exc' in out:
+        violations.append({
+            'clause': 'C05/content', 'detail': {'what': 'exception'},
+            'msg': 'DataReader.recv raised %s (variant %s %s, '
+                   'preload=%s)' % (out['exc'], mode, param, preload)})
+        return False
+    if out['data'] != want:
+        violations.append({
+            'clause': 'C05/content', 'detail': {},
+            'msg': 'received %r, expected %r (variant %s %s cap=%s '
+                   'preload=%s)' % (out['data'][:80], want[:80], mode,
+                                    param, cap, preload)})
+        return False
+    if out['left'] + out['unread'] != trailing:
+        violations.append({
+            'clause': 'C05/consumption', 'detail': {},
+            'msg': 'after the end-of-data line %r is left for the '
+                   'command parser, expected %r (variant %s %s)' % (
+                       (out['left'] + out['unread'])[:60],
+                       trailing[:60], mode, param)})
+        return False
+    return True
 
 
 def shrink_candidates(scn, clause):
